@@ -1,12 +1,12 @@
 package main
 
 import (
-	"sort"
 	"fmt"
 	"go/ast"
 	"go/token"
 	"go/types"
 	"regexp"
+	"sort"
 	"strings"
 
 	"golang.org/x/tools/go/ssa"
@@ -464,22 +464,156 @@ func (c *Ctx) encodingWriter(info *types.Info) {
 		c.fail("W-ENCODING", fname, "explicit encoding loop", fd.Pos(), "no loop over the encoding")
 		return
 	}
-	var skips []string
-	ast.Inspect(rng.Body, func(n ast.Node) bool {
-		if ifs, ok := n.(*ast.IfStmt); ok {
-			for _, st := range ifs.Body.List {
-				if br, ok := st.(*ast.BranchStmt); ok && br.Tok == token.CONTINUE {
-					skips = append(skips, types.ExprString(ifs.Cond))
+	valID, _ := rng.Value.(*ast.Ident)
+	keyID, _ := rng.Key.(*ast.Ident)
+	if valID == nil || keyID == nil {
+		c.fail("W-ENCODING", fname, "explicit encoding loop", rng.Pos(), "the loop does not bind code and name")
+		return
+	}
+	// which statement is the `dup code /name put` line
+	isPut := func(st ast.Stmt) bool {
+		found := false
+		ast.Inspect(st, func(n ast.Node) bool {
+			call, ok := n.(*ast.CallExpr)
+			if !ok || len(call.Args) < 4 {
+				return true
+			}
+			if f, ok := constStrOf(info, call.Args[1]); !ok || f != "dup %d %s put\n" {
+				return true
+			}
+			if id, ok := call.Args[2].(*ast.Ident); !ok || info.ObjectOf(id) != info.ObjectOf(keyID) {
+				return true
+			}
+			// the name goes through Name(...).PS()
+			if ps, ok := call.Args[3].(*ast.CallExpr); ok {
+				if sel, ok := ps.Fun.(*ast.SelectorExpr); ok {
+					if m, ok := info.ObjectOf(sel.Sel).(*types.Func); ok && m.FullName() == "(seehuhn.de/go/postscript.Name).PS" {
+						uses := false
+						ast.Inspect(sel.X, func(m ast.Node) bool {
+							if id, ok := m.(*ast.Ident); ok && info.ObjectOf(id) == info.ObjectOf(valID) {
+								uses = true
+							}
+							return true
+						})
+						found = found || uses
+					}
+				}
+			}
+			return true
+		})
+		return found
+	}
+	okSkip, okPut := true, false
+	why := ""
+	for _, isNotdef := range []bool{true, false} {
+		env := &aenv{info: info, vars: map[types.Object]aval{}}
+		env.hook = func(e ast.Expr) (aval, bool) {
+			be, ok := e.(*ast.BinaryExpr)
+			if !ok || (be.Op != token.EQL && be.Op != token.NEQ) {
+				return aval{}, false
+			}
+			x, y := be.X, be.Y
+			if id, ok := y.(*ast.Ident); ok && info.ObjectOf(id) == info.ObjectOf(valID) {
+				x, y = y, x
+			}
+			id, ok := x.(*ast.Ident)
+			if !ok || info.ObjectOf(id) != info.ObjectOf(valID) {
+				return aval{}, false
+			}
+			if sv, ok := constStrOf(info, y); ok && sv == ".notdef" {
+				return aval{isBool: true, b: isNotdef == (be.Op == token.EQL)}, true
+			}
+			return aval{}, false
+		}
+		var out outcome
+		func() {
+			defer func() {
+				if r := recover(); r != nil {
+					if e, ok := r.(evalErr); ok {
+						okSkip, why = false, "loop body not evaluable: "+e.msg
+						return
+					}
+					panic(r)
+				}
+			}()
+			env.run(rng.Body.List, true, &out)
+		}()
+		wrote := false
+		for _, st := range out.stmts {
+			if isPut(st) {
+				wrote = true
+			}
+		}
+		if wrote == isNotdef {
+			okSkip = false
+			if why == "" {
+				why = fmt.Sprintf("an entry that is .notdef: %v is written: %v", isNotdef, wrote)
+			}
+		}
+		if wrote {
+			okPut = true
+		}
+	}
+	// constant lines before and after the loop
+	var before, after []string
+	ast.Inspect(fd.Body, func(n ast.Node) bool {
+		if call, ok := n.(*ast.CallExpr); ok {
+			for _, a := range call.Args {
+				if sv, ok := constStrOf(info, a); ok {
+					if call.Pos() < rng.Pos() {
+						before = append(before, sv)
+					} else if call.Pos() > rng.End() {
+						after = append(after, sv)
+					}
 				}
 			}
 		}
 		return true
 	})
-	okSkip := len(skips) == 1 && regexp.MustCompile(`^\w+ == "\.notdef"$`).MatchString(skips[0])
-	body := nodeString(c, rng.Body)
-	okPut := strings.Contains(body, `"dup %d %s put\n"`) && strings.Contains(body, ".PS()")
-	txt := nodeString(c, fd.Body)
-	okInit := strings.Contains(txt, `/Encoding 256 array\n`) && strings.Contains(txt, `0 1 255 {1 index exch /.notdef put} for\n`) && strings.Contains(txt, `readonly def\n`)
-	c.check(okSkip && okPut && okInit, "W-ENCODING", fname, "explicit encoding: 256 array preset to .notdef, every other entry written as `dup code /name put`", rng.Pos(), fmt.Sprint(skips), fmt.Sprintf("explicit encoding: entries skipped under %v (only .notdef may be skipped: %v), `dup code /name put` with an escaped name: %v, array preset and closed: %v", skips, okSkip, okPut, okInit))
-	c.check(strings.Contains(txt, `len(encoding) != 256 { return "" }`), "W-ENCODING", fname, "no Encoding entry unless the font has a 256-entry encoding", fd.Pos(), "", "writeEncoding does not guard the encoding length")
+	has := func(l []string, s string) bool {
+		for _, x := range l {
+			if x == s {
+				return true
+			}
+		}
+		return false
+	}
+	okInit := has(before, "/Encoding 256 array\n") && has(before, "0 1 255 {1 index exch /.notdef put} for\n") && has(after, "readonly def\n")
+	c.check(okSkip && okPut && okInit, "W-ENCODING", fname, "explicit encoding: 256 array preset to .notdef, every other entry written as `dup code /name put`", rng.Pos(), "decision over {.notdef, other}", fmt.Sprintf("explicit encoding: exactly the .notdef entries are skipped: %v (%s), `dup code /name put` with an escaped name: %v, array preset and closed: %v", okSkip, why, okPut, okInit))
+	// length guard: no Encoding entry unless there are 256 entries
+	okLen := true
+	if len(fd.Type.Params.List) > 0 && len(fd.Type.Params.List[0].Names) > 0 {
+		encObj := info.Defs[fd.Type.Params.List[0].Names[0]]
+		for _, L := range []int64{0, 1, 255, 257} {
+			env := &aenv{info: info, vars: map[types.Object]aval{}}
+			env.hook = func(e ast.Expr) (aval, bool) {
+				if call, ok := e.(*ast.CallExpr); ok && len(call.Args) == 1 {
+					if id, ok := call.Fun.(*ast.Ident); ok && id.Name == "len" {
+						if a, ok := call.Args[0].(*ast.Ident); ok && info.ObjectOf(a) == encObj {
+							return aval{i: L}, true
+						}
+					}
+				}
+				return aval{}, false
+			}
+			var out outcome
+			empty := false
+			func() {
+				defer func() { recover() }()
+				if env.run(fd.Body.List, true, &out) && out.kind == "return" && len(out.stmts) > 0 {
+					if r, ok := out.stmts[len(out.stmts)-1].(*ast.ReturnStmt); ok && len(r.Results) == 1 {
+						if sv, ok := constStrOf(info, r.Results[0]); ok && sv == "" {
+							empty = true
+						}
+					}
+				}
+			}()
+			if !empty {
+				okLen = false
+			}
+		}
+	} else {
+		okLen = false
+	}
+	c.check(okLen, "W-ENCODING", fname, "no Encoding entry unless the font has a 256-entry encoding", fd.Pos(), "lengths 0, 1, 255, 257 return the empty string", "writeEncoding does not return the empty string for an encoding whose length is not 256")
 }
